@@ -558,7 +558,7 @@ def _conv_shape(nsp):
         if len(shapes) > 2 and list(shapes[2]) != [w[0]]:
             raise ValueError("bias")
         sp = [x[2 + i] - w[2 + i] + 1 for i in range(nsp)]
-        if min(sp) < 1:
+        if min(sp) < 2:
             raise ValueError("conv size")
         return [x[0], w[0]] + sp
     return f
@@ -1082,27 +1082,34 @@ def leaf_shape_candidates(rng, spec, base):
         c.append(list(base[-2:]))
         c.append(base[:-1] + [rng.randint(1, 3)])        # concatenate / hstack along last axis
         c.append([rng.randint(1, 3)] + base[1:])
-    names = set()
-    if spec["t"] == "A":
-        names.add(spec["f"])
-    elif spec["t"] == "B":
-        names |= {it["f"] for it in spec["chain"]}
-    else:
-        names |= {n["f"] for n in tree_nodes(spec["tree"])}
-    if names & {"conv1d", "conv1d_bias"}:
-        n, ci, l = rng.randint(1, 2), rng.randint(1, 3), rng.randint(3, 5)
-        co, k = rng.randint(1, 3), rng.randint(1, 3)
-        c += [[n, ci, l], [co, ci, k], [co]] * 3
-    if names & {"conv2d", "conv2d_bias"}:
-        n, ci, h, w = rng.randint(1, 2), rng.randint(1, 2), rng.randint(3, 4), rng.randint(3, 4)
-        co, kh, kw = rng.randint(1, 2), rng.randint(1, 2), rng.randint(1, 3)
-        c += [[n, ci, h, w], [co, ci, kh, kw], [co]] * 3
-    if "batch_norm" in names:
-        n, ch, h, w = rng.randint(1, 2), rng.randint(1, 3), rng.randint(1, 3), rng.randint(1, 3)
-        c += [[n, ch, h, w]] * 2 + [[ch]] * 6
-    if names & {"avg_pool2d", "max_pool2d"}:
-        c += [[rng.randint(1, 2), rng.randint(2, 4), rng.randint(2, 4)], [1, 1, rng.randint(2, 4), rng.randint(2, 4)]]
+    names = spec_functors(spec)
+    for nm_ in sorted(names):
+        pr = propose_shapes(rng, nm_)
+        if pr:
+            c += pr * 3
     return c
+
+
+def propose_shapes(rng, name):
+    """operand shapes for functors whose operands are strongly constrained (None: use the generic candidates)"""
+    if name in ("conv1d", "conv1d_bias"):
+        n, ci, co, k = rng.randint(1, 2), rng.randint(1, 3), rng.randint(1, 3), rng.randint(1, 2)
+        l = k + rng.randint(1, 3)
+        return [[n, ci, l], [co, ci, k], [co]]
+    if name in ("conv2d", "conv2d_bias"):
+        n, ci, co, kh, kw = rng.randint(1, 2), rng.randint(1, 2), rng.randint(1, 2), rng.randint(1, 2), rng.randint(1, 2)
+        return [[n, ci, kh + rng.randint(1, 2), kw + rng.randint(1, 2)], [co, ci, kh, kw], [co]]
+    if name == "batch_norm":
+        n, ch, h, w = rng.randint(1, 2), rng.randint(1, 3), rng.randint(1, 3), rng.randint(1, 3)
+        return [[n, ch, h, w], [ch], [ch], [ch], [ch]]
+    if name == "matmul":
+        a, b, c = rng.randint(1, 4), rng.randint(1, 4), rng.randint(1, 4)
+        if rng.random() < 0.3:
+            return [[rng.randint(1, 2), a, b], [b, c]]
+        return [[a, b], [b, c]]
+    if name in ("avg_pool2d", "max_pool2d"):
+        return [[rng.randint(1, 2), rng.randint(1, 2), rng.randint(2, 5), rng.randint(2, 5)]]
+    return None
 
 
 class Invalid(Exception):
@@ -1148,8 +1155,11 @@ def sample_case(spec, rng, hints=None, tries=60):
     trees, nleaf = spec_tree(spec)
     kinds = spec["leaves"]
     for attempt in range(tries):
+        prop = propose_shapes(rng, spec["f"]) if spec["t"] == "A" else None
         if hints and (attempt % 2 == 1 or attempt > tries // 2):
             shapes = [list(s) for s in rng.choice(hints)]
+        elif prop is not None and all(leaf_fixed_shape(k) is None for k in kinds):
+            shapes = prop[:len(kinds)]
         else:
             base = _rand_shape(rng)
             cands = leaf_shape_candidates(rng, spec, base)
@@ -1253,8 +1263,10 @@ def candidates_A():
                     out.append({"t": "A", "f": name, "v": 0, "leaves": ["dF"] * (f.arity + extra)})
             else:
                 out.append({"t": "A", "f": name, "v": vi, "leaves": ["dF"] * f.arity})
-    # a few other leaf kinds on representative functors
-    for name, kinds in (("add", ["dD", "dF"]), ("add", ["dF", "sF"]), ("multiply", ["dI", "dI"]), ("tanh", ["dD"]), ("sum", ["dD"]),
+    # a few other leaf kinds on representative functors (conv* only accept fixed shapes)
+    for name, kinds in (("conv1d", ["xF:1x2x4", "xF:2x2x2"]), ("conv1d_bias", ["xF:1x2x4", "xF:2x2x2", "xF:2"]),
+                        ("conv2d", ["xF:1x2x3x3", "xF:2x2x2x2"]), ("conv2d_bias", ["xF:1x2x3x3", "xF:2x2x2x2", "xF:2"]),
+                        ("add", ["dD", "dF"]), ("add", ["dF", "sF"]), ("multiply", ["dI", "dI"]), ("tanh", ["dD"]), ("sum", ["dD"]),
                         ("add", ["xF:2x3", "xF:2x3"]), ("tanh", ["xF:2x3"]), ("sum", ["xF:2x3"]), ("matmul", ["xF:2x3", "xF:3x2"]),
                         ("reshape", ["dD"]), ("where", ["dI", "dF", "dF"]), ("transpose", ["xF:2x3"])):
         out.append({"t": "A", "f": name, "v": 0, "leaves": kinds})
@@ -1475,67 +1487,81 @@ def _hints_for(spec, seed):
     return hints
 
 
-def _phase1(work, jobs):
-    """-> {functor: dict(primitive, shape_ok, graph)}"""
+def _run_spec(spec, cases, exe):
+    """compile (-O0) and run one spec; -> None (does not compile / dies) or {case index: tokens}"""
     import subprocess
+    ok, err = _compile(gen_tu([("e0", spec)]), exe + ".cpp", syntax_only=False, out=exe)
+    if not ok:
+        return None, err
+    cf = exe + ".cases"
+    with open(cf, "w") as fo:
+        for i, c in enumerate(cases):
+            fo.write("%d e0 %s\n" % (i, case_tokens(spec, c)))
+    p = subprocess.run([exe, cf, exe + ".out"], stdout=subprocess.PIPE, stderr=subprocess.PIPE)
+    recs = {}
+    if os.path.exists(exe + ".out"):
+        for ln in open(exe + ".out"):
+            if ln.startswith("R "):
+                parts = ln.split()
+                toks = parts[2:]
+                if "|H" in toks:
+                    toks = toks[:toks.index("|H")]
+                recs[int(parts[1])] = toks
+    for ext in ("", ".cases", ".out"):
+        if os.path.exists(exe + ext):
+            os.remove(exe + ext)
+    if p.returncode != 0 or len(recs) != len(cases):
+        return None, "direct view call dies at run time (rc %d)" % p.returncode
+    return recs, ""
+
+
+def _phase1(work, jobs):
+    """-> {functor: dict(shape_ok, primitive, why)}"""
     from concurrent.futures import ThreadPoolExecutor
     from . import c14_eval as E
     names = [n for n in sorted(CAT) if CAT[n].comb is None and CAT[n].arity >= 1]
 
     def one(name):
         f = CAT[name]
-        info = dict(primitive=False, shape_ok=False, graph=False, compiles=False)
-        for graph in (True, False):
-            spec = {"t": "C", "tree": {"f": name, "v": 0, "args": [{"leaf": i} for i in range(f.arity)]}, "leaves": ["dF"] * f.arity, "graph": graph}
-            r = random.Random(name)
-            cases = [c for c in (sample_case(spec, r, tries=80) for _ in range(3)) if c]
-            if not cases:
-                return name, info
-            exe = os.path.join(work, "f_%s" % name)
-            ok, err = _compile(gen_tu([("e0", spec)]), exe + ".cpp", syntax_only=False, out=exe)
-            if not ok:
-                info["err"] = err
-                continue
-            info["compiles"] = True
-            info["graph"] = graph
-            cf = exe + ".cases"
-            with open(cf, "w") as fo:
-                for i, c in enumerate(cases):
-                    fo.write("%d e0 %s\n" % (i, case_tokens(spec, c)))
-            subprocess.run([exe, cf, exe + ".out"], stdout=subprocess.PIPE, stderr=subprocess.PIPE)
-            shape_ok = True
-            prim = graph
-            try:
-                recs = {}
-                for ln in open(exe + ".out"):
-                    if ln.startswith("R "):
-                        parts = ln.split()
-                        recs[int(parts[1])] = parts[2:]
-                if len(recs) != len(cases):
-                    shape_ok = False
+        info = dict(shape_ok=False, primitive=False)
+        specA = {"t": "A", "f": name, "v": 0, "leaves": ["dF"] * f.arity}
+        r = random.Random(name)
+        cases = [c for c in (sample_case(specA, r, tries=80) for _ in range(3)) if c]
+        if not cases:
+            info["why"] = "no argument set"
+            return name, info
+        exe = os.path.join(work, "f_%s" % name)
+        recs, err = _run_spec(specA, cases, exe)
+        if recs is None:
+            info["why"] = "A: " + err
+            return name, info
+        try:
+            ok = True
+            for i, c in enumerate(cases):
+                ref, _ = E.parse_ab(recs[i])
+                if ref is None or ref[0] != "arr" or ref[2] is None or ref[2]["shape"] != c["out_shapes"][0]:
+                    ok = False
+                    info["why"] = "shape model %s vs library %s" % (c["out_shapes"][0], None if ref is None or ref[2] is None else ref[2]["shape"])
+            info["shape_ok"] = ok
+        except Exception as e:
+            info["why"] = "A: unparsable %r" % (e,)
+        if not info["shape_ok"]:
+            return name, info
+        specC = {"t": "C", "tree": {"f": name, "v": 0, "args": [{"leaf": i} for i in range(f.arity)]}, "leaves": ["dF"] * f.arity}
+        recs, err = _run_spec(specC, cases, exe)
+        if recs is None:
+            info["why"] = "C: " + err
+            return name, info
+        try:
+            prim = True
+            for i, c in enumerate(cases):
+                rec = E.parse_c(recs[i])
+                if rec["graph"] is None or sum(1 for n in rec["graph"]["nodes"] if n["kind"] == "F") != 1 or len(rec["graph"]["nodes"]) != f.arity + 1:
                     prim = False
-                for i, c in enumerate(cases):
-                    if i not in recs:
-                        continue
-                    toks = recs[i]
-                    if "|H" in toks:
-                        toks = toks[:toks.index("|H")]
-                    rec = E.parse_c(toks)
-                    if not rec["sv"] or not rec["sv"][0]["has_value"] or rec["sv"][0]["shape"] != c["out_shapes"][0]:
-                        shape_ok = False
-                    if graph:
-                        if rec["graph"] is None or sum(1 for n in rec["graph"]["nodes"] if n["kind"] == "F") != 1 or len(rec["graph"]["nodes"]) != f.arity + 1:
-                            prim = False
-            except Exception as e:  # unparsable -> not usable in trees
-                shape_ok = False
-                prim = False
-                info["err"] = repr(e)[:200]
-            info["shape_ok"] = shape_ok
+                    info["why"] = "one view call is %s graph nodes" % (None if rec["graph"] is None else len(rec["graph"]["nodes"]))
             info["primitive"] = prim
-            for ext in ("", ".cases", ".out"):
-                if os.path.exists(exe + ext):
-                    os.remove(exe + ext)
-            break
+        except Exception as e:
+            info["why"] = "C: unparsable %r" % (e,)
         return name, info
 
     out = {}
